@@ -25,13 +25,14 @@ TReport == IsEvent("report") /\ Report(Ev, held) /\ UNCHANGED <<scn, held>>
 TStray  == IsEvent("stray_report") /\ StrayReport /\ UNCHANGED <<scn, held>>
 TNoRep  == IsEvent("noreport") /\ NoReport /\ UNCHANGED <<scn, held>>
 TWatch  == IsEvent("watchdog") /\ Watchdog(UNION {SetOf(Ev.holders[i][2]) : i \in 1..Len(Ev.holders)}) /\ UNCHANGED <<scn, held>>
+TEofLat == IsEvent("eoflat") /\ EofLatency(Ev.us) /\ UNCHANGED <<scn, held>>
 TPost   == IsEvent("post") /\ Post(Ev.fds, Ev.children) /\ UNCHANGED <<scn, held>>
 TEnd ==
   /\ IsEvent("end")
   /\ PrintT(<<"RESULT", scn, viol, sanity, "-">>)
   /\ UNCHANGED <<svars, scn, held>>
 
-TraceNext == TReset \/ TPre \/ TSys \/ TResult \/ THeld \/ TReport \/ TStray \/ TNoRep \/ TWatch \/ TPost \/ TEnd
+TraceNext == TReset \/ TPre \/ TSys \/ TResult \/ THeld \/ TReport \/ TStray \/ TNoRep \/ TWatch \/ TEofLat \/ TPost \/ TEnd
 TraceSpec == TraceInit /\ [][TraceNext]_tvars
 
 TraceAccepted ==
